@@ -181,7 +181,11 @@ MUTANTS = {
         mut("join-without-newline", "files joined without a line break", [(MAIN, "    Ok(contents.join(\"\\n\"))", "    Ok(contents.join(\"\"))")], ["R4:cli:join-separator"]),
         mut("group-by-date-only", "legs grouped by date only", [(CALC, "        let key = (m.disposal_date, m.disposal_ticker.clone());\n        disposal_map.entry(key).or_default().push(m);", "        let key = (m.disposal_date, String::new());\n        disposal_map.entry(key).or_default().push(m);")], ["R3:group:key"]),
         mut("no-disposal-sort", "disposals left in hash order", [(CALC, "    crate::sort_by_date_ticker(\n        &mut disposals,\n        |disposal| disposal.date,\n        |disposal| &disposal.ticker,\n    );\n", "")], ["R3:"]),
-        mut("sorted-by-all-keys-repaired", "sort by date, ticker, kind (repair of the known finding)", [(M, "transactions.sort_by(|a, b| a.date.cmp(&b.date));", "transactions.sort_by(|a, b| {\n            a.date\n                .cmp(&b.date)\n                .then_with(|| a.ticker.cmp(&b.ticker))\n                .then_with(|| std::mem::discriminant(&a.operation).cmp_key().cmp(&std::mem::discriminant(&b.operation).cmp_key()))\n        });")], neutral=True),
+        mut("sorted-by-all-keys-repaired", "sort by date, ticker, kind (repair of the known finding)", [
+            (M, "transactions.sort_by(|a, b| a.date.cmp(&b.date));",
+             "transactions.sort_by(|a, b| {\n            a.date\n                .cmp(&b.date)\n                .then_with(|| a.ticker.cmp(&b.ticker))\n                .then_with(|| op_kind(&a.operation).cmp(&op_kind(&b.operation)))\n        });"),
+            (M, "impl Default for Matcher {", "fn op_kind(op: &Operation<Decimal>) -> u8 {\n    match op {\n        Operation::Buy { .. } => 0,\n        Operation::Sell { .. } => 1,\n        Operation::Dividend { .. } => 2,\n        Operation::Accumulation { .. } => 3,\n        Operation::CapReturn { .. } => 4,\n        Operation::Split { .. } => 5,\n        Operation::Unsplit { .. } => 6,\n    }\n}\n\nimpl Default for Matcher {"),
+        ], neutral=True),
     ],
     "C07": [
         mut("boundary-april-5", "from_date boundary 5 April", [(MODELS, "let tax_year_boundary = NaiveDate::from_ymd_opt(date.year(), 4, 6)", "let tax_year_boundary = NaiveDate::from_ymd_opt(date.year(), 4, 5)")], ["R1:models::TaxPeriod::from_date:boundary"]),
